@@ -612,3 +612,16 @@ func fvStored(fv *ssa.FreeVar) bool {
 	}
 	return false
 }
+
+// cloverIface: a non-empty interface type declared in one of the clover packages.
+func (P *Prog) cloverIface(t types.Type) bool {
+	n, ok := t.(*types.Named)
+	if !ok || n.Obj().Pkg() == nil {
+		return false
+	}
+	it, ok := n.Underlying().(*types.Interface)
+	if !ok || it.NumMethods() == 0 {
+		return false
+	}
+	return strings.HasPrefix(n.Obj().Pkg().Path(), modPath)
+}
